@@ -85,9 +85,11 @@ def gen_class(rng, idx):
     names = rng.sample(NAMES, n)
     fields = []
     seen_default = False
+    # keyword-only classes (dataclass(kw_only=True), attr.s(kw_only=True)): a field without a default may follow fields with one
+    kw_only = rng.random() < 0.25
     for nm in names:
         r = rng.random()
-        if r < 0.35 and not seen_default:
+        if r < 0.35 and (kw_only or not seen_default):
             fields.append((nm, 'none', None, None, True))      # a required field hidden from the repr could never be rebuilt
         elif r < 0.75:
             seen_default = True
@@ -95,11 +97,12 @@ def gen_class(rng, idx):
         else:
             seen_default = True
             fields.append((nm, 'factory', None, rng.randrange(len(FACTORIES)), rng.random() < 0.85))
-    return (kind, 'Gen%d' % idx, fields, rng.random() < 0.3, rng.random() < 0.2)
+    return (kind, 'Gen%d' % idx, fields, rng.random() < 0.3, rng.random() < 0.2, kw_only)
 
 
 def build_class(desc):
-    kind, name, fields, frozen, slots = desc
+    kind, name, fields, frozen, slots = desc[:5]
+    kw_only = len(desc) > 5 and desc[5]
     mod = sys.modules[__name__]
     if hasattr(mod, name):
         return getattr(mod, name)
@@ -119,7 +122,7 @@ def build_class(desc):
             fs.append(('class_level_counter', typing.ClassVar[int], 0))
         if h % 4 == 1:
             fs.append(('init_only', dataclasses.InitVar[int], 0))
-        cls = dataclasses.make_dataclass(name, fs, frozen=frozen, slots=slots)
+        cls = dataclasses.make_dataclass(name, fs, frozen=frozen, slots=slots, kw_only=kw_only)
         if h % 3 == 0:
             cls.class_level_counter = 7
     else:
@@ -131,7 +134,7 @@ def build_class(desc):
                 at[nm] = attr.ib(default=default, repr=rp)
             else:
                 at[nm] = attr.ib(factory=FACTORIES[fi], repr=rp)
-        cls = attr.make_class(name, at, frozen=frozen, slots=slots)
+        cls = attr.make_class(name, at, frozen=frozen, slots=slots, kw_only=kw_only)
     cls.__module__ = __name__
     cls.__qualname__ = name
     setattr(mod, name, cls)
